@@ -19,6 +19,7 @@ type PropConfig struct {
 	Packages    []string `json:"packages"`
 	Functions   []string `json:"functions"`
 	Lemmas      []string `json:"lemmas,omitempty"` // smt2 lemma files (relative to /verif/theory)
+	RegexPkgs   []string `json:"regex_pkgs,omitempty"`
 	Assumptions []string `json:"assumptions"`
 	NotDecided  []string `json:"not_decided"`
 	Level       string   `json:"level,omitempty"`
@@ -152,6 +153,8 @@ func cmdCheck(mode string, args []string) {
 	for _, fn := range fns {
 		vcs = append(vcs, p.encodeFunc(fn))
 	}
+	// regex obligations of the listed packages
+	vcs = append(vcs, regexVCs(p, cfg.RegexPkgs)...)
 	// pick what to solve
 	var jobs []*OblResult
 	skipped := 0
@@ -223,7 +226,7 @@ func cmdCheck(mode string, args []string) {
 			}
 			if !generated[n] {
 				switch classOf(n) {
-				case "post", "pre", "callsite", "inv-init", "inv-pres", "variant", "vacuity":
+				case "post", "pre", "callsite", "inv-init", "inv-pres", "variant", "vacuity", "regex":
 					// a contract clause that can no longer be attached to the code (its call site,
 					// loop or function shape is gone): the claimed obligation cannot be re-established
 					report(n, "contract-derived obligation is no longer generated from the changed code (the call site / loop / clause it was attached to is gone)", "", true)
@@ -321,6 +324,41 @@ func cmdCheck(mode string, args []string) {
 	if violations > 0 {
 		os.Exit(1)
 	}
+}
+
+// regexVCs: one pseudo function per package variable holding a regexp, with one obligation per clause.
+func regexVCs(p *Program, pkgs []string) []*FuncVC {
+	by := map[string]*FuncVC{}
+	var order []string
+	for _, c := range p.regexClauses {
+		want := false
+		for _, pk := range pkgs {
+			if pk == c.pkg {
+				want = true
+			}
+		}
+		if !want {
+			continue
+		}
+		fn := c.pkg + ".regex:" + c.varN
+		vc := by[fn]
+		if vc == nil {
+			vc = &FuncVC{Func: fn, Notes: map[string]bool{"regular expressions translated to SMT-LIB RegLan over code points; '.' also matches newline": true}}
+			by[fn] = vc
+			order = append(order, fn)
+		}
+		o, err := p.regexObligation(c)
+		if err != nil {
+			vc.Errors = append(vc.Errors, err.Error())
+			continue
+		}
+		vc.Obls = append(vc.Obls, o)
+	}
+	var out []*FuncVC
+	for _, fn := range order {
+		out = append(out, by[fn])
+	}
+	return out
 }
 
 func classOf(name string) string {
